@@ -84,6 +84,10 @@ func main() {
 			}()
 			f(prog, c)
 		}()
+		c.Extra["positive_controls"] = fixtureStats
+		if *tier == "thorough" {
+			thoroughExtras(prog, c, *repo, *verif)
+		}
 		wall := time.Since(t0).Seconds()
 		if len(ids) == 1 {
 			wall = time.Since(start).Seconds()
@@ -94,4 +98,37 @@ func main() {
 		}
 	}
 	os.Exit(exit)
+}
+
+// thoroughExtras: sensitivity of the check to the seeded-change catalogue (only meaningful when the tree itself is clean).
+func thoroughExtras(prog *Program, c *Check, repo, verif string) {
+	findings, _ := loadFindings(filepath.Join(verif, "known_findings.txt"))
+	known := map[string]bool{}
+	for _, f := range findings {
+		if f.Kind == "known" && f.Property == c.Property {
+			known[f.Key] = true
+		}
+	}
+	for _, o := range c.Obs {
+		if o.Status == Violated && !known[o.Key] {
+			c.Extra["sensitivity"] = "skipped: the analysed tree already has violations"
+			return
+		}
+	}
+	res := runSensitivity(repo, verif, c.Property, known)
+	applicable, detected := 0, 0
+	for _, r := range res {
+		if r.Applies && r.Note == "" {
+			applicable++
+			if r.Detected {
+				detected++
+			}
+		}
+	}
+	c.Extra["sensitivity"] = res
+	c.Extra["sensitivity_summary"] = fmt.Sprintf("%d of %d applicable seeded changes of this property are reported when applied in memory", detected, applicable)
+	fmt.Printf("%s thorough: sensitivity %d/%d seeded changes reported\n", c.Property, detected, applicable)
+	if applicable > 0 && detected == 0 {
+		c.Brokenf("none of the %d applicable seeded changes of this property is reported any more", applicable)
+	}
 }
